@@ -21,6 +21,7 @@ import (
 	"sort"
 	"strings"
 	"sync"
+	"sync/atomic"
 	"testing"
 	"time"
 
@@ -334,5 +335,1480 @@ func c19HiddenClientConfig(target int, second bool) ClientConfig {
 }
 
 
-var _ = rapid.Bool
-var _ *testing.T
+// ---------------------------------------------------------------------------
+// (a) statelessness under client hellos
+
+type c19FloodCase struct {
+	N     int    `json:"n"`     // client hellos presented (1..2000)
+	Addrs int    `json:"addrs"` // distinct source addresses (1..500)
+	Real  int    `json:"real"`  // hellos sent by real Clients whose handshake is stalled (their ServerHello is dropped)
+	Live  bool   `json:"live"`  // an established session exists before the flood (the tables start non-empty)
+	Mix   [3]int `json:"mix"`   // weights of fresh valid / replayed / corrupt hellos among the injected ones
+	Seed  uint64 `json:"seed"`  // tape of the per-hello choices (address, replay source, corruption)
+}
+
+// 500 addresses = 125 IPs x 4 ports, so that IP-only and port-only differences both occur
+func c19FloodAddr(i int) *net.UDPAddr {
+	return &net.UDPAddr{IP: net.ParseIP(fmt.Sprintf("10.1.%d.%d", (i/4)/200, (i/4)%200+1)), Port: 20000 + 1000*(i%4) + i/4}
+}
+
+func c19Bucket(n int) string {
+	switch {
+	case n <= 1:
+		return "1"
+	case n < 10:
+		return "2-9"
+	case n < 100:
+		return "10-99"
+	case n < 1000:
+		return "100-999"
+	}
+	return "1000+"
+}
+
+func c19Flood(c c19FloodCase, v *vlib.Verdict) (mach string) {
+	w := vGetWorld()
+	env := vStartServer(w.ServerConfig(false))
+	defer env.Stop()
+	env.Net.Filter = func(d simnet.Datagram) []simnet.Datagram {
+		// the handshake of every flood client stalls: its ServerHello never arrives (the live client is left alone)
+		if c19Same(d.Src, vSrvAddr) && len(d.Data) > 0 && MessageType(d.Data[0]) == MessageTypeServerHello && !c19Same(d.Dst, vCli2Addr) {
+			return nil
+		}
+		return []simnet.Datagram{d}
+	}
+	var clients []*Client
+	defer func() {
+		for _, cl := range clients {
+			cl.Close()
+		}
+	}()
+	if c.Live {
+		lc, _ := env.NewClient(vCli2Addr, w.ClientConfig(false, true))
+		clients = append(clients, lc)
+		if err := c19Handshake(lc, 10*time.Second); err != nil {
+			return "honest discoverable handshake failed: " + err.Error()
+		}
+		if _, err := env.Srv.AcceptTimeout(time.Second); err != nil {
+			return "honest discoverable handshake not offered by Accept: " + err.Error()
+		}
+	}
+	c19Settle()
+	before := c19Footprint(env.Srv)
+	watch := c19NewWatch(env.Net)
+	check := func(sofar int) bool {
+		c19Settle()
+		after := c19Footprint(env.Srv)
+		if f, a, b := c19FootprintDiff(before, after); f != "" {
+			v.Failf("C19:state-created-on-hello:"+f, "server-owned %q went from %d to %d entries after %d client hellos (no client acknowledgement was ever sent)", f, a, b, sofar)
+			return false
+		}
+		return true
+	}
+	nReal := c.Real
+	if nReal > c.Addrs {
+		nReal = c.Addrs
+	}
+	if nReal > c.N {
+		nReal = c.N
+	}
+	var dones []chan error
+	type sent struct {
+		data []byte
+		addr *net.UDPAddr
+	}
+	var valids []sent
+	want := 0
+	kinds := map[string]int{}
+	tape := vlib.Fill(c.Seed, 8*c.N)
+	wsum := c.Mix[0] + c.Mix[1] + c.Mix[2]
+	for i := 0; i < c.N; i++ {
+		tp := tape[8*i : 8*i+8]
+		if i < nReal {
+			cl, _ := env.NewClient(c19FloodAddr(i), w.ClientConfig(false, i%2 == 1))
+			clients = append(clients, cl)
+			ch := make(chan error, 1)
+			dones = append(dones, ch)
+			go func() { ch <- cl.Handshake() }()
+			want++
+			kinds["real-client"]++
+			continue
+		}
+		addr := c19FloodAddr((int(tp[0])<<8 | int(tp[1])) % c.Addrs)
+		kind := 0
+		if wsum > 0 {
+			r := int(tp[2]) % wsum
+			switch {
+			case r < c.Mix[0]:
+				kind = 0
+			case r < c.Mix[0]+c.Mix[1]:
+				kind = 1
+			default:
+				kind = 2
+			}
+		}
+		if len(valids) == 0 {
+			kind = 0
+		}
+		pick := func() sent { return valids[(int(tp[3])<<8|int(tp[4]))%len(valids)] }
+		switch kind {
+		case 0:
+			_, h := c19Hello(c19NewKEM())
+			valids = append(valids, sent{h, addr})
+			env.Net.Inject(addr, vSrvAddr, h)
+			want++
+			kinds["fresh-valid"]++
+		case 1:
+			s := pick()
+			a := s.addr
+			if tp[5]&1 == 1 {
+				a = addr
+				kinds["replay-other-address"]++
+			} else {
+				kinds["replay-same-address"]++
+			}
+			env.Net.Inject(a, vSrvAddr, s.data)
+			want++
+		case 2:
+			b := append([]byte(nil), pick().data...)
+			off := (int(tp[6])<<8 | int(tp[7])) % len(b)
+			switch tp[5] % 4 {
+			case 0:
+				b[off] ^= tp[2] | 1
+				kinds["corrupt-xor"]++
+			case 1:
+				b[off%HeaderLen] ^= tp[2] | 1
+				kinds["corrupt-header"]++
+			case 2:
+				b = b[:off]
+				kinds["corrupt-truncated"]++
+			case 3:
+				b = append(b, vlib.Fill(c.Seed+uint64(i), 1+off%32)...)
+				kinds["corrupt-extended"]++
+			}
+			env.Net.Inject(addr, vSrvAddr, b)
+		}
+		if i%128 == 127 && !check(i+1) {
+			return ""
+		}
+	}
+	if !check(c.N) {
+		return ""
+	}
+	if h, err := env.Srv.AcceptTimeout(50 * time.Millisecond); err == nil && h != nil {
+		v.Failf("C19:connection-offered-on-hello", "Accept returned a connection although only client hellos were sent")
+		return ""
+	}
+	replies := 0
+	for _, d := range watch.delta() {
+		if len(d.Data) > 0 && MessageType(d.Data[0]) == MessageTypeServerHello {
+			replies++
+		}
+	}
+	for _, ch := range dones {
+		<-ch // stalled real clients give up after HSTimeout
+	}
+	if !check(c.N) {
+		return ""
+	}
+	v.Label("hellos:" + c19Bucket(c.N))
+	v.Label("addresses:" + c19Bucket(c.Addrs))
+	for k := range kinds {
+		v.Label("with:" + k)
+	}
+	if c.Live {
+		v.Label("tables-non-empty-before")
+	}
+	if replies != want {
+		v.Labelf("server-hello-count-differs-from-valid-hellos")
+		v.Note = fmt.Sprintf("%d ServerHello for %d valid hellos", replies, want)
+	}
+	v.NonTrivial = replies > 0
+	return ""
+}
+
+func c19FloodGen(t *rapid.T) c19FloodCase {
+	c := c19FloodCase{}
+	switch rapid.IntRange(0, 9).Draw(t, "size") {
+	case 0:
+		c.N = rapid.IntRange(500, 2000).Draw(t, "n")
+	case 1, 2:
+		c.N = rapid.IntRange(100, 499).Draw(t, "n")
+	case 3:
+		c.N = rapid.IntRange(1, 3).Draw(t, "n")
+	default:
+		c.N = rapid.IntRange(4, 99).Draw(t, "n")
+	}
+	c.Addrs = rapid.IntRange(1, 500).Draw(t, "addrs")
+	if rapid.IntRange(0, 3).Draw(t, "fewAddrs") == 0 {
+		c.Addrs = rapid.IntRange(1, 4).Draw(t, "addrsFew")
+	}
+	c.Real = rapid.IntRange(0, 3).Draw(t, "real")
+	c.Live = rapid.Bool().Draw(t, "live")
+	c.Mix = [3]int{rapid.IntRange(1, 6).Draw(t, "wFresh"), rapid.IntRange(0, 6).Draw(t, "wReplay"), rapid.IntRange(0, 6).Draw(t, "wCorrupt")}
+	c.Seed = rapid.Uint64().Draw(t, "seed")
+	return c
+}
+
+func c19FloodRun(t *testing.T) func(c c19FloodCase, v *vlib.Verdict) {
+	return func(c c19FloodCase, v *vlib.Verdict) {
+		if c.N < 1 || c.Addrs < 1 {
+			v.Discard = true
+			return
+		}
+		var mach string
+		res := vlib.Bubble(t, 120*time.Second, func() { mach = c19Flood(c, v) })
+		if !c19BubbleVerdict(res, v) {
+			return
+		}
+		if mach != "" {
+			t.Errorf("VERIF-MACHINERY C19 flood: %s", mach)
+		}
+	}
+}
+
+func TestVerifC19Stateless(t *testing.T) {
+	c19SelfTest(t)
+	vlib.Drive(t, vlib.Spec[c19FloodCase]{ID: "C19", Quick: 240, Gen: c19FloodGen, Run: c19FloodRun(t)})
+}
+
+// ---------------------------------------------------------------------------
+// (b) cookie binding: one client acknowledgement presented per case
+
+type c19CookieCase struct {
+	Real   bool `json:"real"`   // base exchange (A, K) by a real Client whose ClientAck is captured in flight (alterations are byte replacements); otherwise harness-driven with the real message functions (alterations keep the MAC consistent)
+	From   int  `json:"from"`   // presentation source: 0 A, 1 same IP other port, 2 other IP same port, 3 other IP other port
+	Key    int  `json:"key"`    // 0 K; 1 KEM field replaced by another valid public key, MAC untouched; 2 other key, MAC recomputed from K's shared secret (harness-driven base only)
+	Cookie int  `json:"cookie"` // 0 intact; 1 xor Mask at cookie byte Off; 2 cookie of another exchange (other address, other key); 3 cookie of another exchange from A under another key; 4 cookie minted for K at another address (harness-driven base only)
+	Off    int  `json:"off"`
+	Mask   int  `json:"mask"`
+	DelayS int  `json:"delayS"` // virtual seconds between the ServerHello and the presentation (the cookie key rotates every 120 s)
+	Forge  bool `json:"forge,omitempty"` // harness-driven base: build even an unaltered acknowledgement with the forging helper (self-test of the helper)
+}
+
+var c19FromAddrs = []*net.UDPAddr{vCliAddr, c19AddrSameIP, c19AddrSamePort, vEvilAddr}
+
+type c19CookieOut struct {
+	mach       string
+	serverAuth bool
+	emitted    string
+	entry      bool
+	grewField  string
+	grewFrom   int
+	grewTo     int
+	rotated    bool
+}
+
+func c19Cookie(c c19CookieCase) (out c19CookieOut) {
+	w := vGetWorld()
+	env := vStartServer(w.ServerConfig(false))
+	defer env.Stop()
+	var mu sync.Mutex
+	acks := map[string][]byte{} // ClientAck of real clients, by source address
+	env.Net.Filter = func(d simnet.Datagram) []simnet.Datagram {
+		if len(d.Data) == 0 {
+			return []simnet.Datagram{d}
+		}
+		switch MessageType(d.Data[0]) {
+		case MessageTypeClientAck:
+			// captured instead of delivered
+			mu.Lock()
+			acks[d.Src.String()] = append([]byte(nil), d.Data...)
+			mu.Unlock()
+			return nil
+		case MessageTypeServerAuth:
+			// nobody continues a handshake in this scenario: entries made by an accepted acknowledgement stay observable
+			return nil
+		}
+		return []simnet.Datagram{d}
+	}
+	var clients []*Client
+	defer func() {
+		for _, cl := range clients {
+			cl.Close()
+		}
+	}()
+	realAck := func(addr *net.UDPAddr, second bool) []byte {
+		mu.Lock()
+		delete(acks, addr.String())
+		mu.Unlock()
+		cl, _ := env.NewClient(addr, w.ClientConfig(false, second))
+		clients = append(clients, cl)
+		go cl.Handshake() // stalls after the acknowledgement, gives up after HSTimeout
+		for i := 0; i < 50; i++ {
+			time.Sleep(time.Millisecond)
+			mu.Lock()
+			a := acks[addr.String()]
+			mu.Unlock()
+			if a != nil {
+				return a
+			}
+		}
+		return nil
+	}
+	keyAt := c19CookieKey(env.Srv)
+	var ack []byte
+	if c.Real {
+		base := realAck(vCliAddr, false)
+		if base == nil || len(base) != c19AckLen {
+			out.mach = "real client did not produce a ClientAck"
+			return
+		}
+		ack = append([]byte(nil), base...)
+		var other []byte
+		switch c.Cookie {
+		case 2:
+			other = realAck(vCli2Addr, true)
+		case 3:
+			clients[0].Close()
+			other = realAck(vCliAddr, true)
+		case 4:
+			out.mach = "cookie variant 4 needs a harness-driven base exchange"
+			return
+		}
+		if c.Cookie >= 2 {
+			if other == nil {
+				out.mach = "second real client did not produce a ClientAck"
+				return
+			}
+			copy(ack[c19AckOffCookie:c19AckOffSNI], other[c19AckOffCookie:c19AckOffSNI])
+		}
+		switch c.Key {
+		case 1:
+			pk, _ := c19NewKEM().Public.MarshalBinary()
+			copy(ack[c19AckOffKEM:c19AckOffCookie], pk)
+		case 2:
+			out.mach = "key variant 2 needs a harness-driven base exchange"
+			return
+		}
+	} else {
+		kp := c19NewKEM()
+		x, err := c19Exchange(env, vCliAddr, kp)
+		if err != nil {
+			out.mach = err.Error()
+			return
+		}
+		cookie, secret := x.cookie, x.secret
+		var ox *c19Xchg
+		switch c.Cookie {
+		case 2:
+			ox, err = c19Exchange(env, c19AddrOtherXchg, c19NewKEM())
+		case 3:
+			ox, err = c19Exchange(env, vCliAddr, c19NewKEM())
+		case 4:
+			ox, err = c19Exchange(env, c19AddrOtherXchg, kp)
+		}
+		if err != nil {
+			out.mach = err.Error()
+			return
+		}
+		if ox != nil {
+			cookie, secret = ox.cookie, ox.secret
+		}
+		if c.Cookie == 1 {
+			// altered cookie under a MAC that is consistent with it: only the cookie's own integrity is in the way
+			cookie = append([]byte(nil), cookie...)
+			cookie[c.Off%PQCookieLen] ^= byte(c.Mask)
+		}
+		ackKey := kp
+		if c.Key == 2 {
+			ackKey = c19NewKEM()
+		}
+		if c.Key != 2 && c.Cookie == 0 && !c.Forge {
+			ack = append([]byte(nil), x.ack...) // the acknowledgement the real client code wrote
+		} else {
+			ack = c19ForgeAck(ackKey, secret, cookie)
+		}
+		if c.Key == 1 {
+			pk, _ := c19NewKEM().Public.MarshalBinary()
+			copy(ack[c19AckOffKEM:c19AckOffCookie], pk)
+		}
+	}
+	if c.Cookie == 1 && c.Real {
+		ack[c19AckOffCookie+c.Off%PQCookieLen] ^= byte(c.Mask)
+	}
+	time.Sleep(time.Duration(c.DelayS) * time.Second)
+	out.rotated = c19CookieKey(env.Srv) != keyAt
+	src := c19FromAddrs[c.From]
+	before := c19Footprint(env.Srv)
+	watch := c19NewWatch(env.Net)
+	env.Net.Inject(src, vSrvAddr, ack)
+	c19Settle()
+	sent := watch.delta()
+	for _, d := range sent {
+		if len(d.Data) > 0 && MessageType(d.Data[0]) == MessageTypeServerAuth {
+			out.serverAuth = true
+		}
+	}
+	out.emitted = c19Describe(sent)
+	out.entry = env.Srv.fetchHandshakeState(src) != nil
+	out.grewField, out.grewFrom, out.grewTo = c19FootprintDiff(before, c19Footprint(env.Srv))
+	return
+}
+
+func c19CookieDiffers(c c19CookieCase, rotated bool) []string {
+	var d []string
+	switch c.From {
+	case 1:
+		d = append(d, "port")
+	case 2:
+		d = append(d, "ip")
+	case 3:
+		d = append(d, "ip+port")
+	}
+	if c.Key != 0 {
+		d = append(d, "client-key")
+	}
+	switch c.Cookie {
+	case 1:
+		if c.Off%PQCookieLen < PQCookieLen-32 {
+			d = append(d, "cookie-ciphertext-byte")
+		} else {
+			d = append(d, "cookie-tag-byte")
+		}
+	case 2:
+		d = append(d, "cookie-of-other-address-and-key")
+	case 3:
+		d = append(d, "cookie-of-other-key")
+	case 4:
+		d = append(d, "cookie-of-other-address")
+	}
+	if rotated {
+		d = append(d, "rotated-key")
+	}
+	return d
+}
+
+func c19CookieValid(c c19CookieCase) bool {
+	if c.From < 0 || c.From >= len(c19FromAddrs) || c.Key < 0 || c.Key > 2 || c.Cookie < 0 || c.Cookie > 4 || c.DelayS < 0 {
+		return false
+	}
+	if c.Real && (c.Key == 2 || c.Cookie == 4) {
+		return false
+	}
+	if c.Cookie == 1 && c.Mask&0xff == 0 {
+		return false
+	}
+	return true
+}
+
+func c19CookieRun(t *testing.T) func(c c19CookieCase, v *vlib.Verdict) {
+	return func(c c19CookieCase, v *vlib.Verdict) {
+		if !c19CookieValid(c) {
+			v.Discard = true
+			return
+		}
+		var out c19CookieOut
+		res := vlib.Bubble(t, 60*time.Second, func() { out = c19Cookie(c) })
+		if !c19BubbleVerdict(res, v) {
+			return
+		}
+		if out.mach != "" {
+			t.Errorf("VERIF-MACHINERY C19 cookie: %s (case %+v)", out.mach, c)
+			return
+		}
+		differs := c19CookieDiffers(c, out.rotated)
+		v.Label("base:" + map[bool]string{true: "real-client(byte-replacement)", false: "harness-driven(consistent-mac)"}[c.Real])
+		v.Label("from:" + []string{"A", "same-ip-other-port", "other-ip-same-port", "other-ip-other-port"}[c.From])
+		v.Label("key:" + []string{"K", "replaced-field", "other-key-consistent-mac"}[c.Key])
+		v.Label("cookie:" + []string{"intact", "byte-altered", "of-other-address-and-key", "of-other-key-same-address", "of-same-key-other-address"}[c.Cookie])
+		v.Label("presented:" + map[bool]string{true: "after-rotation", false: "before-rotation"}[out.rotated])
+		if c.DelayS >= 121 && !out.rotated {
+			v.Label("cookie-key-unchanged-after-more-than-120s(not-judged)")
+		}
+		accepted := out.serverAuth || out.entry || out.grewField == "handshakes" || out.grewField == "sessions"
+		if len(differs) == 0 {
+			v.Label("differs:nothing(matching)")
+			switch {
+			case out.serverAuth && out.entry:
+				v.Label("matching:accepted")
+			case c.DelayS == 0:
+				t.Errorf("VERIF-MACHINERY C19:valid-cookie-rejected: the unaltered acknowledgement from A with K and the fresh cookie was not accepted (ServerAuth %v, handshake entry %v); case %+v", out.serverAuth, out.entry, c)
+			default:
+				v.Label("matching:rejected-without-rotation(not-judged)")
+			}
+			return
+		}
+		what := strings.Join(differs, "+")
+		v.Label("differs:" + what)
+		v.NonTrivial = true
+		if accepted {
+			v.Failf("C19:cookie-accepted:"+what, "client acknowledgement accepted although it differs from the exchange the cookie was minted for in: %s (ServerAuth emitted %v, handshake entry for the source %v, table change %q %d->%d; server sent:%s)",
+				what, out.serverAuth, out.entry, out.grewField, out.grewFrom, out.grewTo, out.emitted)
+			return
+		}
+		if out.emitted != "" {
+			v.Label("rejected-but-server-sent-something(not-judged)")
+			v.Note = out.emitted
+		}
+	}
+}
+
+// TestVerifC19CookieSweep enumerates source x key x cookie x rotation, and every cookie byte.
+func TestVerifC19CookieSweep(t *testing.T) {
+	run := c19CookieRun(t)
+	if vlib.ReplayEnumerated(t, "C19", run) {
+		return
+	}
+	c19SelfTest(t)
+	rec := vlib.Open(t, "C19")
+	idx := 0
+	emit := func(c c19CookieCase) bool {
+		idx++
+		if !rec.Mine(idx) || !c19CookieValid(c) {
+			return true
+		}
+		rec.Persist(c)
+		return vlib.Each(t, rec, c, run)
+	}
+	delays := []int{0, 45, 110, 125, 170, 245, 299}
+	for _, real := range []bool{false, true} {
+		for from := 0; from < 4; from++ {
+			for key := 0; key <= 2; key++ {
+				for _, cookie := range []int{0, 2, 3, 4} {
+					for _, d := range delays {
+						if !emit(c19CookieCase{Real: real, From: from, Key: key, Cookie: cookie, DelayS: d}) {
+							return
+						}
+					}
+				}
+			}
+		}
+		masks := []int{0x01, 0x80}
+		if vlib.Thorough() {
+			masks = []int{0x01, 0x02, 0x04, 0x08, 0x10, 0x20, 0x40, 0x80, 0xff}
+		}
+		for off := 0; off < PQCookieLen; off++ {
+			for _, m := range masks {
+				if !emit(c19CookieCase{Real: real, Cookie: 1, Off: off, Mask: m}) {
+					return
+				}
+			}
+			if vlib.Thorough() || off%8 == 0 {
+				// an altered cookie combined with each other difference
+				for from := 1; from < 4; from++ {
+					if !emit(c19CookieCase{Real: real, From: from, Cookie: 1, Off: off, Mask: 0x01}) {
+						return
+					}
+				}
+				if !emit(c19CookieCase{Real: real, Cookie: 1, Off: off, Mask: 0x01, DelayS: 130}) {
+					return
+				}
+			}
+		}
+	}
+	rec.Extra("enumerated", "base {real client, harness-driven} x source {A, other port, other IP, both} x key {K, field replaced, other key with consistent MAC} x cookie {intact, of other exchange x3} x delay {0,45,110 | 125,170,245,299 s}; every cookie byte x masks (quick {0x01,0x80}; thorough 8 single bits + 0xff)")
+}
+
+func TestVerifC19CookieRandom(t *testing.T) {
+	c19SelfTest(t)
+	vlib.Drive(t, vlib.Spec[c19CookieCase]{ID: "C19", Quick: 700, Run: c19CookieRun(t), Gen: func(t *rapid.T) c19CookieCase {
+		c := c19CookieCase{Real: rapid.Bool().Draw(t, "real")}
+		c.From = rapid.SampledFrom([]int{0, 0, 1, 2, 3}).Draw(t, "from")
+		if c.Real {
+			c.Key = rapid.SampledFrom([]int{0, 0, 1}).Draw(t, "key")
+			c.Cookie = rapid.SampledFrom([]int{0, 0, 1, 1, 2, 3}).Draw(t, "cookie")
+		} else {
+			c.Key = rapid.SampledFrom([]int{0, 0, 0, 1, 2, 2}).Draw(t, "key")
+			c.Cookie = rapid.SampledFrom([]int{0, 0, 0, 1, 1, 2, 3, 4}).Draw(t, "cookie")
+		}
+		if c.Cookie == 1 {
+			c.Off = rapid.IntRange(0, PQCookieLen-1).Draw(t, "off")
+			c.Mask = rapid.IntRange(1, 255).Draw(t, "mask")
+		}
+		switch rapid.IntRange(0, 3).Draw(t, "when") {
+		case 0:
+			c.DelayS = 0
+		case 1:
+			c.DelayS = rapid.IntRange(1, 115).Draw(t, "delayBefore")
+		default:
+			c.DelayS = rapid.IntRange(121, 300).Draw(t, "delayAfter")
+		}
+		return c
+	}})
+}
+
+// ---------------------------------------------------------------------------
+// (c) hidden server: one probe class per case
+
+const c19MinHiddenLen = HeaderLen + KemKeyLen + KemCtLen + MacLen + TimestampLen + MacLen // hidden request with empty certificates
+
+var c19LastReqLen atomic.Int64 // length of the last honest hidden request that was answered (self-test -> generators)
+
+type c19HiddenCase struct {
+	Certs   int    `json:"certs"`   // certificates of the hidden server: 1 = ServerConfig(true); 2, 3 = GetCertificate/GetCertList closures
+	Target  int    `json:"target"`  // certificate whose KEM key the case's honest request uses
+	Live    bool   `json:"live"`    // a hidden session (client vCli2Addr) is established first and stays open during the probe
+	Class   string `json:"class"`   // honest | delayed | replayed-late | future | wrong-kem | altered | junk | discoverable | own-cookie-ack | session-unknown | session-live
+	Src     int    `json:"src"`     // source of injected datagrams: 0 an address the server never saw, 1 the live client's address, 2 the requesting client's address
+	N       int    `json:"n"`       // junk / session classes: number of datagrams
+	Type    int    `json:"type"`    // junk / session classes: first byte (-1: from the tape); discoverable: message index (-1: all five in order)
+	Len     int    `json:"len"`     // junk / session classes: datagram length; altered (truncate): new length
+	Kind    int    `json:"kind"`    // altered: 0 xor, 1 truncate, 2 extend by Len bytes; junk: 1 = hidden-request-shaped (version and length field fit); session-live: 0 junk body, 1 replay of an authentic datagram, 2 altered authentic datagram
+	Off     int    `json:"off"`
+	Mask    int    `json:"mask"`
+	DelayMs int64  `json:"delayMs"` // delayed / replayed-late: hold time; future: how far the requesting client's clock is ahead
+	Seed    uint64 `json:"seed"`
+}
+
+var c19DiscoverableNames = []string{"ClientHello", "ServerHello", "ClientAck", "ServerAuth", "ClientAuth"}
+
+// c19HiddenNormalize redirects the shapes that trigger a process-killing finding while it is listed open.
+func c19HiddenNormalize(c *c19HiddenCase) string {
+	if c.Certs > 1 && vlib.KnownOpen(c19SigHiddenMulti) {
+		hit := false
+		switch c.Class {
+		case "wrong-kem", "altered":
+			hit = true
+		case "honest", "delayed", "replayed-late", "future":
+			hit = c.Target > 0
+		case "junk":
+			hit = (c.Type < 0 || c.Type == int(MessageTypeClientRequestHidden)) && c.Len >= c19MinHiddenLen
+		}
+		if hit {
+			c.Certs, c.Target = 1, 0
+			return c19SigHiddenMulti
+		}
+	}
+	if c.Class == "session-live" && c.Kind == 0 && c.Len >= HeaderLen+SessionIDLen && c.Len < HeaderLen+SessionIDLen+CounterLen+TagLen && vlib.KnownOpen(c19SigMakeslice) {
+		c.Len += HeaderLen + SessionIDLen + CounterLen + TagLen
+		return c19SigMakeslice
+	}
+	return ""
+}
+
+func c19HiddenValid(c c19HiddenCase) bool {
+	if c.Certs < 1 || c.Certs > 3 || c.Target < 0 || c.Target >= c.Certs || c.Src < 0 || c.Src > 2 || c.N < 0 || c.N > 64 || c.Len < 0 || c.Len > 4000 || c.DelayMs < 0 {
+		return false
+	}
+	switch c.Class {
+	case "honest", "delayed", "replayed-late", "future", "wrong-kem", "own-cookie-ack":
+		return true
+	case "altered":
+		return c.Kind >= 0 && c.Kind <= 2 && (c.Kind != 0 || c.Mask&0xff != 0) && (c.Kind != 2 || c.Len > 0)
+	case "junk", "session-unknown":
+		return c.N >= 1 && c.Len >= 1
+	case "session-live":
+		return c.Live && c.N >= 1 && c.Len >= 1 && c.Kind >= 0 && c.Kind <= 2 && (c.Kind != 2 || c.Mask&0xff != 0)
+	case "discoverable":
+		return c.Type >= -1 && c.Type < 5
+	}
+	return false
+}
+
+// c19CaptureDiscoverable runs an honest discoverable handshake against another server instance and returns its five messages.
+func c19CaptureDiscoverable() ([][]byte, string) {
+	w := vGetWorld()
+	env2 := vStartServer(w.ServerConfig(false))
+	defer env2.Stop()
+	var mu sync.Mutex
+	var msgs [][]byte
+	env2.Net.Filter = func(d simnet.Datagram) []simnet.Datagram {
+		if vIsHandshake(d.Data) {
+			mu.Lock()
+			msgs = append(msgs, append([]byte(nil), d.Data...))
+			mu.Unlock()
+		}
+		return []simnet.Datagram{d}
+	}
+	cli, _ := env2.NewClient(vCliAddr, w.ClientConfig(false, false))
+	err := c19Handshake(cli, 10*time.Second)
+	if err == nil {
+		_, err = env2.Srv.AcceptTimeout(time.Second)
+	}
+	cli.Close()
+	mu.Lock()
+	defer mu.Unlock()
+	if err != nil || len(msgs) != 5 {
+		return nil, fmt.Sprintf("honest discoverable run against the other instance: err %v, %d handshake datagrams", err, len(msgs))
+	}
+	for i, m := range msgs {
+		if int(m[0]) != i+1 {
+			return nil, fmt.Sprintf("honest discoverable run: datagram %d has type %#x", i, m[0])
+		}
+	}
+	return msgs, ""
+}
+
+// c19MakeRequest lets a real hidden client whose clock is aheadMs ahead of a fresh bubble's start write its request.
+func c19MakeRequest(t *testing.T, aheadMs int64, cc ClientConfig) []byte {
+	var req []byte
+	vlib.Bubble(t, 30*time.Second, func() {
+		time.Sleep(time.Duration(aheadMs) * time.Millisecond)
+		n := simnet.New()
+		sock := n.Dial(vCliAddr, vSrvAddr)
+		cli := NewClient(sock, vSrvAddr, cc)
+		done := make(chan error, 1)
+		go func() { done <- cli.Handshake() }()
+		time.Sleep(time.Millisecond)
+		for _, d := range n.SentSnapshot() {
+			if len(d.Data) > 0 && MessageType(d.Data[0]) == MessageTypeClientRequestHidden {
+				req = d.Data
+			}
+		}
+		cli.Close()
+		<-done
+	})
+	return req
+}
+
+type c19HiddenJudge struct {
+	v     *vlib.Verdict
+	watch *c19Watch
+}
+
+// silent: whatever preceded must not have made the server send anything.
+func (j *c19HiddenJudge) silent(class, what string) bool {
+	got := j.watch.delta()
+	if len(got) == 0 {
+		return true
+	}
+	j.v.Failf("C19:hidden-server-answered:"+class, "hidden server sent %d datagram(s) after %s:%s", len(got), what, c19Describe(got))
+	return false
+}
+
+// atMostOneResponse: a request that is fresh by the server's own criterion may be answered by exactly one
+// ServerResponseHidden to its source; returns whether it was.
+func (j *c19HiddenJudge) atMostOneResponse(class, what string, to *net.UDPAddr) (answered, ok bool) {
+	got := j.watch.delta()
+	if len(got) == 0 {
+		return false, true
+	}
+	d := got[0]
+	if len(got) > 1 || len(d.Data) == 0 || MessageType(d.Data[0]) != MessageTypeServerResponseHidden || !c19Same(d.Dst, to) {
+		j.v.Failf("C19:hidden-server-answered:more-than-one-response:"+class, "after %s from %v the hidden server sent:%s (allowed: one ServerResponseHidden to the source)", what, to, c19Describe(got))
+		return true, false
+	}
+	return true, true
+}
+
+func c19JunkClass(b []byte) string {
+	if len(b) == 0 {
+		return "empty"
+	}
+	mt := MessageType(b[0])
+	switch {
+	case mt == MessageTypeClientRequestHidden:
+		return "hidden-request-typed"
+	case mt >= MessageTypeClientHello && mt <= MessageTypeClientAuth, mt == MessageTypeServerResponseHidden:
+		return "handshake-typed"
+	case mt == MessageTypeTransport, mt == MessageTypeControl:
+		return "session-typed"
+	}
+	return "unknown-type"
+}
+
+func c19Hidden(c c19HiddenCase, v *vlib.Verdict, future []byte) (mach string) {
+	env := vStartServer(c19HiddenServerConfig(c.Certs))
+	defer env.Stop()
+	var mu sync.Mutex
+	mode := "pass" // treatment of the hidden request of the client at vCliAddr
+	var captured []byte
+	var liveSent [][]byte
+	env.Net.Filter = func(d simnet.Datagram) []simnet.Datagram {
+		mu.Lock()
+		defer mu.Unlock()
+		if len(d.Data) == 0 {
+			return []simnet.Datagram{d}
+		}
+		if c19Same(d.Src, vCli2Addr) && !MessageType(d.Data[0]).IsHandshakeType() {
+			liveSent = append(liveSent, append([]byte(nil), d.Data...))
+		}
+		if !c19Same(d.Src, vCliAddr) || MessageType(d.Data[0]) != MessageTypeClientRequestHidden {
+			return []simnet.Datagram{d}
+		}
+		captured = append([]byte(nil), d.Data...)
+		switch mode {
+		case "hold":
+			d.Delay = time.Duration(c.DelayMs) * time.Millisecond
+		case "alter":
+			switch c.Kind {
+			case 0:
+				d.Data[c.Off%len(d.Data)] ^= byte(c.Mask)
+			case 1:
+				d.Data = d.Data[:c.Len%len(d.Data)]
+			case 2:
+				d.Data = append(d.Data, vlib.Fill(c.Seed, c.Len)...)
+			}
+		}
+		return []simnet.Datagram{d}
+	}
+	setMode := func(m string) { mu.Lock(); mode = m; mu.Unlock() }
+	var clients []*Client
+	defer func() {
+		for _, cl := range clients {
+			cl.Close()
+		}
+	}()
+	newClient := func(addr *net.UDPAddr, cc ClientConfig) *Client {
+		cl, _ := env.NewClient(addr, cc)
+		clients = append(clients, cl)
+		return cl
+	}
+	var live *Client
+	if c.Live {
+		live = newClient(vCli2Addr, c19HiddenClientConfig(0, true))
+		if err := c19Handshake(live, 5*time.Second); err != nil {
+			return "honest hidden handshake (live session) failed: " + err.Error()
+		}
+		if _, err := env.Srv.AcceptTimeout(time.Second); err != nil {
+			return "live hidden session not offered by Accept: " + err.Error()
+		}
+		c19Settle()
+	}
+	src := vEvilAddr
+	switch {
+	case c.Src == 1 && c.Live:
+		src = vCli2Addr
+	case c.Src == 2:
+		src = vCliAddr
+	}
+	j := &c19HiddenJudge{v: v, watch: c19NewWatch(env.Net)}
+	inject := func(b []byte) { env.Net.Inject(src, vSrvAddr, b) }
+	window := int64(HiddenModeTimestampExpiration) * 1000
+
+	switch c.Class {
+	case "honest":
+		cl := newClient(vCliAddr, c19HiddenClientConfig(c.Target, false))
+		err := c19Handshake(cl, 5*time.Second)
+		c19Settle()
+		answered, ok := j.atMostOneResponse("fresh-request", "a fresh valid request", vCliAddr)
+		if !ok {
+			return
+		}
+		if !answered || err != nil {
+			v.Labelf("fresh-valid-request:unanswered-or-client-failed(not-judged)")
+			v.Note = fmt.Sprintf("answered %v, client err %v", answered, err)
+		} else {
+			v.Label("fresh-valid-request:answered-once")
+			mu.Lock()
+			c19LastReqLen.Store(int64(len(captured)))
+			mu.Unlock()
+		}
+
+	case "delayed":
+		setMode("hold")
+		cl := newClient(vCliAddr, c19HiddenClientConfig(c.Target, false))
+		c19Handshake(cl, time.Duration(c.DelayMs)*time.Millisecond+2*time.Second)
+		c19Settle()
+		switch {
+		case c.DelayMs >= window+1000:
+			v.NonTrivial = true
+			v.Label("delayed-beyond-window")
+			if !j.silent("stale-request:delayed", fmt.Sprintf("a valid request that was delivered %d ms after it was written (window %d s)", c.DelayMs, HiddenModeTimestampExpiration)) {
+				return
+			}
+		case c.DelayMs <= window:
+			answered, ok := j.atMostOneResponse("delayed-inside-window", "a valid request delayed inside the window", vCliAddr)
+			if !ok {
+				return
+			}
+			v.Labelf("delayed-inside-window:answered=%v", answered)
+		default:
+			answered, ok := j.atMostOneResponse("delayed-window-edge", "a valid request delayed to the edge of the window", vCliAddr)
+			if !ok {
+				return
+			}
+			v.Labelf("delayed-window-edge(not-judged):answered=%v", answered)
+		}
+
+	case "replayed-late":
+		cl := newClient(vCliAddr, c19HiddenClientConfig(c.Target, false))
+		err := c19Handshake(cl, 5*time.Second)
+		c19Settle()
+		answered, ok := j.atMostOneResponse("fresh-request", "a fresh valid request", vCliAddr)
+		if !ok {
+			return
+		}
+		if err != nil || !answered || captured == nil {
+			v.Label("fresh-valid-request:unanswered-or-client-failed(not-judged)")
+			break
+		}
+		time.Sleep(time.Duration(c.DelayMs) * time.Millisecond)
+		inject(captured)
+		c19Settle()
+		where := map[bool]string{true: "same-address", false: "other-address"}[c19Same(src, vCliAddr)]
+		switch {
+		case c.DelayMs >= window+1000:
+			v.NonTrivial = true
+			v.Label("replayed-beyond-window:" + where)
+			if !j.silent("stale-request:replayed-late", fmt.Sprintf("a byte-identical replay (%s) of an answered request, %d ms after it was written", where, c.DelayMs)) {
+				return
+			}
+		default:
+			again, ok := j.atMostOneResponse("replay-inside-window", "a replay inside the window", src)
+			if !ok {
+				return
+			}
+			v.Labelf("replayed-inside-window-or-edge(not-judged):%s:answered=%v", where, again)
+		}
+
+	case "future":
+		if future == nil {
+			return "no pre-made future request"
+		}
+		inject(future)
+		c19Settle()
+		if c.DelayMs >= window+1000 {
+			v.NonTrivial = true
+			v.Label("future-beyond-window-width")
+			if !j.silent("future-request", fmt.Sprintf("a valid request time-stamped %d ms in the future", c.DelayMs)) {
+				return
+			}
+		} else {
+			answered, ok := j.atMostOneResponse("future-inside-window-width", "a request stamped slightly in the future", src)
+			if !ok {
+				return
+			}
+			v.Labelf("future-inside-window-width(not-judged):answered=%v", answered)
+		}
+
+	case "wrong-kem":
+		cc := c19HiddenClientConfig(0, false)
+		pk := c19NewKEM().Public
+		cc.ServerKEMKey = &pk
+		cl := newClient(vCliAddr, cc)
+		c19Handshake(cl, 3*time.Second)
+		c19Settle()
+		v.NonTrivial = true
+		v.Label("request-under-wrong-kem-key")
+		if !j.silent("wrong-kem-request", "a well-formed request built for another KEM public key") {
+			return
+		}
+
+	case "altered":
+		setMode("alter")
+		cl := newClient(vCliAddr, c19HiddenClientConfig(c.Target, false))
+		c19Handshake(cl, 3*time.Second)
+		c19Settle()
+		kind := []string{"xor", "truncated", "extended"}[c.Kind]
+		v.NonTrivial = true
+		region := ""
+		if c.Kind == 0 && captured != nil {
+			region = ":" + c19RequestRegion(c.Off%len(captured), len(captured))
+		}
+		v.Label("altered-request:" + kind + region)
+		if !j.silent("altered-request:"+kind, fmt.Sprintf("a valid request altered in flight (%s off=%d mask=%#x len=%d of %d bytes)", kind, c.Off, c.Mask, c.Len, len(captured))) {
+			return
+		}
+
+	case "junk":
+		cls := ""
+		for i := 0; i < c.N; i++ {
+			b := vlib.Fill(c.Seed+uint64(i), c.Len)
+			if c.Type >= 0 {
+				b[0] = byte(c.Type)
+			}
+			if c.Kind == 1 && len(b) >= c19MinHiddenLen {
+				b[1] = Version
+				e := len(b) - c19MinHiddenLen
+				b[2], b[3] = byte(e>>8), byte(e)
+			}
+			if c.Certs > 1 && vlib.KnownOpen(c19SigHiddenMulti) && MessageType(b[0]) == MessageTypeClientRequestHidden && len(b) >= c19MinHiddenLen {
+				b[1] = Version + 1 // excluded by construction (see c19HiddenNormalize)
+			}
+			cls = c19JunkClass(b)
+			inject(b)
+		}
+		c19Settle()
+		v.NonTrivial = true
+		if c.Kind == 1 && c.Len >= c19MinHiddenLen {
+			cls += "+well-sized"
+		}
+		v.Label("junk:" + cls)
+		if !j.silent("junk:"+cls, fmt.Sprintf("%d junk datagram(s) of %d bytes, first byte %#x", c.N, c.Len, c.Type)) {
+			return
+		}
+
+	case "discoverable":
+		msgs, m := c19CaptureDiscoverable()
+		if m != "" {
+			return m
+		}
+		v.NonTrivial = true
+		for i, msg := range msgs {
+			if c.Type >= 0 && c.Type != i {
+				continue
+			}
+			inject(msg)
+			c19Settle()
+			v.Label("discoverable:" + c19DiscoverableNames[i])
+			if !j.silent("discoverable:"+c19DiscoverableNames[i], "a valid discoverable-mode "+c19DiscoverableNames[i]+" captured from an honest run against another instance") {
+				return
+			}
+		}
+
+	case "own-cookie-ack":
+		// white-box: the acknowledgement that this very server WOULD accept if it were discoverable (cookie sealed under its own current cookie key)
+		kp := c19NewKEM()
+		chs, _ := c19Hello(kp)
+		shs := &HandshakeState{dh: new(dhState), kem: new(kemState)}
+		shs.duplex.InitializeEmpty()
+		shs.duplex.Absorb([]byte(PostQuantumProtocolName))
+		_, hello := c19Hello(kp)
+		if _, err := readPQClientHello(shs, hello); err != nil {
+			return "own-cookie-ack: " + err.Error()
+		}
+		shs.cookieKey = c19CookieKey(env.Srv)
+		shs.remoteAddr = src
+		shb := make([]byte, c19SHLen)
+		if _, err := writePQServerHello(shs, shb); err != nil {
+			return "own-cookie-ack: " + err.Error()
+		}
+		if _, err := readPQServerHello(chs, shb); err != nil {
+			return "own-cookie-ack: " + err.Error()
+		}
+		chs.RekeyFromSqueeze(PostQuantumProtocolName)
+		ack := make([]byte, c19AckLen)
+		if _, err := chs.writePQClientAck(ack); err != nil {
+			return "own-cookie-ack: " + err.Error()
+		}
+		inject(hello)
+		c19Settle()
+		v.NonTrivial = true
+		v.Label("discoverable:ClientHello")
+		if !j.silent("discoverable:ClientHello", "a valid client hello") {
+			return
+		}
+		inject(ack)
+		c19Settle()
+		v.Label("discoverable:ClientAck-with-cookie-under-the-servers-own-key")
+		if !j.silent("discoverable:ClientAck", "a client acknowledgement whose cookie is sealed under the hidden server's own cookie key for this source and key") {
+			return
+		}
+
+	case "session-unknown", "session-live":
+		var sid SessionID
+		copy(sid[:], vlib.Fill(c.Seed^0x5e55, SessionIDLen))
+		if live != nil {
+			lid := live.ss.sessionID
+			if c.Class == "session-live" {
+				sid = lid
+			} else if sid == lid {
+				sid[0] ^= 0xff
+			}
+		}
+		v.NonTrivial = true
+		typ := byte(MessageTypeTransport)
+		if c.Type >= 0 {
+			typ = byte(c.Type)
+		}
+		switch {
+		case c.Class == "session-live" && c.Kind >= 1:
+			// an authentic datagram of the live session, then replays / altered copies of it
+			mu.Lock()
+			liveSent = nil
+			mu.Unlock()
+			if err := live.WriteMsg(vlib.Fill(c.Seed, 1+c.Len%512)); err != nil {
+				return "live client WriteMsg: " + err.Error()
+			}
+			c19Settle()
+			mu.Lock()
+			var auth []byte
+			if len(liveSent) > 0 {
+				auth = liveSent[0]
+			}
+			mu.Unlock()
+			if auth == nil {
+				return "live client's datagram not seen on the wire"
+			}
+			if got := j.watch.delta(); len(got) > 0 {
+				v.Label("authentic-session-datagram-elicited-a-datagram(not-judged)")
+			}
+			for i := 0; i < c.N; i++ {
+				b := append([]byte(nil), auth...)
+				if c.Kind == 2 {
+					b[(c.Off+i)%len(b)] ^= byte(c.Mask)
+				}
+				inject(b)
+			}
+			c19Settle()
+			sub := []string{"", "replay-of-authentic", "altered-authentic"}[c.Kind]
+			v.Label("session-datagram:live-id:" + sub)
+			if !j.silent("session-datagram:live-id:"+sub, fmt.Sprintf("%d %s datagram(s) of the live session from %v", c.N, sub, src)) {
+				return
+			}
+		default:
+			for i := 0; i < c.N; i++ {
+				b := vlib.Fill(c.Seed+uint64(i), c.Len)
+				b[0] = typ
+				if len(b) >= HeaderLen+SessionIDLen {
+					copy(b[HeaderLen:], sid[:])
+				}
+				inject(b)
+			}
+			c19Settle()
+			which := map[bool]string{true: "live-id", false: "unknown-id"}[c.Class == "session-live"]
+			v.Labelf("session-datagram:%s:type-%#x", which, typ)
+			if !j.silent("session-datagram:"+which, fmt.Sprintf("%d datagram(s) type %#x of %d bytes carrying %s %x from %v", c.N, typ, c.Len, which, sid, src)) {
+				return
+			}
+		}
+	default:
+		return "unknown class " + c.Class
+	}
+
+	// the server must still be a working hidden server (a dead server is trivially silent)
+	setMode("pass")
+	pc, _ := env.NewClient(c19AddrLiveness, c19HiddenClientConfig(0, false))
+	clients = append(clients, pc)
+	err := c19Handshake(pc, 5*time.Second)
+	c19Settle()
+	answered, ok := j.atMostOneResponse("fresh-request", "a fresh valid request (closing probe)", c19AddrLiveness)
+	if !ok {
+		return
+	}
+	if !answered || err != nil {
+		v.Label("closing-honest-request:unanswered(not-judged)")
+		v.Note = fmt.Sprintf("closing probe: answered %v, client err %v", answered, err)
+	}
+	v.Labelf("server-certs:%d", c.Certs)
+	if c.Live {
+		v.Label("with-live-session")
+	}
+	return ""
+}
+
+// c19RequestRegion names the field of a hidden request that holds offset off (layout of writePQClientRequestHidden).
+func c19RequestRegion(off, total int) string {
+	certs := total - c19MinHiddenLen
+	switch {
+	case off < HeaderLen:
+		return "header"
+	case off < HeaderLen+KemKeyLen:
+		return "client-kem-key"
+	case off < HeaderLen+KemKeyLen+KemCtLen:
+		return "kem-ciphertext"
+	case off < HeaderLen+KemKeyLen+KemCtLen+certs:
+		return "certificates"
+	case off < HeaderLen+KemKeyLen+KemCtLen+certs+MacLen:
+		return "tag"
+	case off < HeaderLen+KemKeyLen+KemCtLen+certs+MacLen+TimestampLen:
+		return "timestamp"
+	}
+	return "mac"
+}
+
+func c19HiddenRun(t *testing.T) func(c c19HiddenCase, v *vlib.Verdict) {
+	return func(c c19HiddenCase, v *vlib.Verdict) {
+		if !c19HiddenValid(c) {
+			v.Discard = true
+			return
+		}
+		if sig := c19HiddenNormalize(&c); sig != "" {
+			v.Label("redirected-away-from-open-finding:" + sig)
+		}
+		var future []byte
+		if c.Class == "future" {
+			future = c19MakeRequest(t, c.DelayMs, c19HiddenClientConfig(c.Target, false))
+			if future == nil {
+				t.Errorf("VERIF-MACHINERY C19 hidden: could not produce a future-stamped request")
+				return
+			}
+		}
+		var mach string
+		res := vlib.Bubble(t, 60*time.Second, func() { mach = c19Hidden(c, v, future) })
+		if !c19BubbleVerdict(res, v) {
+			return
+		}
+		if mach != "" {
+			t.Errorf("VERIF-MACHINERY C19 hidden: %s (case %+v)", mach, c)
+		}
+	}
+}
+
+// TestVerifC19HiddenSweep enumerates the probe classes with their edge parameters.
+func TestVerifC19HiddenSweep(t *testing.T) {
+	run := c19HiddenRun(t)
+	if vlib.ReplayEnumerated(t, "C19", run) {
+		return
+	}
+	L := c19SelfTest(t)
+	rec := vlib.Open(t, "C19")
+	idx := 0
+	emit := func(c c19HiddenCase) bool {
+		idx++
+		if !rec.Mine(idx) || !c19HiddenValid(c) {
+			return true
+		}
+		probe := c
+		if sig := c19HiddenNormalize(&probe); sig != "" {
+			rec.Excluded(sig)
+		}
+		rec.Persist(c)
+		return vlib.Each(t, rec, c, run)
+	}
+	both := []bool{false, true}
+	th := vlib.Thorough()
+	// honest requests to every certificate
+	for certs := 1; certs <= 3; certs++ {
+		for target := 0; target < certs; target++ {
+			for _, live := range both {
+				if !emit(c19HiddenCase{Certs: certs, Target: target, Live: live, Class: "honest"}) {
+					return
+				}
+			}
+		}
+	}
+	// valid discoverable messages
+	for certs := 1; certs <= 2; certs++ {
+		for _, live := range both {
+			for _, src := range []int{0, 1, 2} {
+				if src == 1 && !live {
+					continue
+				}
+				for typ := -1; typ < 5; typ++ {
+					if !emit(c19HiddenCase{Certs: certs, Live: live, Class: "discoverable", Type: typ, Src: src}) {
+						return
+					}
+				}
+				if !emit(c19HiddenCase{Certs: certs, Live: live, Class: "own-cookie-ack", Src: src}) {
+					return
+				}
+			}
+		}
+	}
+	// junk by first byte and length
+	types := []int{0x00, 0x01, 0x02, 0x03, 0x04, 0x05, 0x06, 0x07, 0x08, 0x09, 0x0a, 0x10, 0x11, 0x18, 0x20, 0x80, 0xff}
+	lens := []int{1, 3, 4, 5, 7, 8, 11, 12, 47, 48, 100, PQHelloLen, c19AckLen, c19MinHiddenLen - 1, c19MinHiddenLen, c19MinHiddenLen + 1, L - 1, L, L + 1, 2500}
+	for _, typ := range types {
+		for _, ln := range lens {
+			for kind := 0; kind <= 1; kind++ {
+				if kind == 1 && (typ != int(MessageTypeClientRequestHidden) || ln < c19MinHiddenLen) {
+					continue
+				}
+				for certs := 1; certs <= 2; certs++ {
+					if certs == 2 && !th && ln != 4 && ln != 48 && ln != L {
+						continue
+					}
+					if !emit(c19HiddenCase{Certs: certs, Class: "junk", N: 1, Type: typ, Len: ln, Kind: kind, Seed: uint64(typ*4001 + ln)}) {
+						return
+					}
+				}
+			}
+		}
+	}
+	// session datagrams
+	for _, typ := range []int{0x10, 0x80, 0x20, 0x00} {
+		for _, ln := range []int{4, 5, 7, 8, 12, 20, 47, 48, 49, 64, 1000} {
+			for _, live := range both {
+				for _, src := range []int{0, 1} {
+					if src == 1 && !live {
+						continue
+					}
+					if !emit(c19HiddenCase{Certs: 1, Live: live, Class: "session-unknown", N: 2, Type: typ, Len: ln, Src: src, Seed: uint64(typ*977 + ln)}) {
+						return
+					}
+					if live && !emit(c19HiddenCase{Certs: 1 + ln%2, Live: true, Class: "session-live", N: 2, Type: typ, Len: ln, Src: src, Seed: uint64(typ*977 + ln)}) {
+						return
+					}
+				}
+			}
+		}
+	}
+	for _, src := range []int{0, 1} {
+		for _, n := range []int{1, 3} {
+			if !emit(c19HiddenCase{Certs: 1, Live: true, Class: "session-live", Kind: 1, N: n, Len: 40, Src: src, Seed: 7}) {
+				return
+			}
+		}
+		for _, off := range []int{0, 1, 4, 7, 8, 15, 16, 20, 40, 55, 56} {
+			for _, m := range []int{0x01, 0x80} {
+				if !emit(c19HiddenCase{Certs: 1, Live: true, Class: "session-live", Kind: 2, N: 1, Len: 40, Off: off, Mask: m, Src: src, Seed: 9}) {
+					return
+				}
+			}
+		}
+	}
+	// requests under a wrong KEM key
+	for certs := 1; certs <= 2; certs++ {
+		for _, live := range both {
+			if !emit(c19HiddenCase{Certs: certs, Live: live, Class: "wrong-kem"}) {
+				return
+			}
+		}
+	}
+	// altered valid requests
+	edges := map[int]bool{}
+	certsLen := L - c19MinHiddenLen
+	for _, e := range []int{0, HeaderLen, HeaderLen + KemKeyLen, HeaderLen + KemKeyLen + KemCtLen, HeaderLen + KemKeyLen + KemCtLen + certsLen,
+		L - MacLen - TimestampLen - MacLen, L - MacLen - TimestampLen, L - MacLen, L} {
+		for d := -2; d <= 2; d++ {
+			if e+d >= 0 && e+d < L {
+				edges[e+d] = true
+			}
+		}
+	}
+	step, tstep := 16, 64
+	masks := []int{0x01, 0x80}
+	if th {
+		step, tstep = 1, 8
+		masks = []int{0x01, 0x80, 0xff}
+	}
+	for _, target := range []int{0, 1} {
+		for off := 0; off < L; off++ {
+			if off%step != 0 && !edges[off] {
+				continue
+			}
+			if target == 1 && !edges[off] && !th {
+				continue
+			}
+			for _, m := range masks {
+				if !emit(c19HiddenCase{Certs: 1 + target, Target: target, Class: "altered", Kind: 0, Off: off, Mask: m}) {
+					return
+				}
+			}
+		}
+	}
+	for ln := 0; ln < L; ln++ {
+		if ln%tstep != 0 && !edges[ln] {
+			continue
+		}
+		if !emit(c19HiddenCase{Certs: 1, Class: "altered", Kind: 1, Len: ln}) {
+			return
+		}
+	}
+	for _, ext := range []int{1, 2, 16, 64, 500} {
+		for _, live := range both {
+			if !emit(c19HiddenCase{Certs: 1, Live: live, Class: "altered", Kind: 2, Len: ext, Seed: uint64(ext)}) {
+				return
+			}
+		}
+	}
+	// delayed, replayed late, stamped in the future
+	delays := []int64{0, 1000, 4000, 5000, 5500, 6000, 6001, 7000, 10000, 60000, 600000, 3600000}
+	for _, d := range delays {
+		for _, live := range both {
+			for certs := 1; certs <= 2; certs++ {
+				if !emit(c19HiddenCase{Certs: certs, Live: live, Class: "delayed", DelayMs: d}) {
+					return
+				}
+			}
+			for _, src := range []int{2, 0, 1} {
+				if src == 1 && !live {
+					continue
+				}
+				if !emit(c19HiddenCase{Certs: 1, Live: live, Class: "replayed-late", DelayMs: d, Src: src}) {
+					return
+				}
+			}
+		}
+	}
+	for _, d := range []int64{1000, 5000, 6000, 7000, 60000, 3600000, 86400000 * 365} {
+		for _, live := range both {
+			for _, src := range []int{2, 0} {
+				if !emit(c19HiddenCase{Certs: 1, Live: live, Class: "future", DelayMs: d, Src: src}) {
+					return
+				}
+			}
+		}
+	}
+	rec.Extra("enumerated", "honest requests per certificate; the five discoverable messages (each / all) x source x live session; acknowledgement under the server's own cookie key; junk: 17 first bytes x 20 lengths (+ hidden-request-shaped); session datagrams unknown/live id x 4 types x 11 lengths, replayed and altered authentic datagrams; wrong KEM key; valid request xor (quick: every 16th offset + all field edges, thorough: every offset) / truncated / extended; delayed and replayed-late at 12 delays from 0 to 1 h; future-stamped at 7 offsets up to 1 year")
+	rec.Extra("honest_request_bytes", L)
+}
+
+func c19HiddenGen(L int) func(t *rapid.T) c19HiddenCase {
+	return func(t *rapid.T) c19HiddenCase {
+		c := c19HiddenCase{Certs: rapid.SampledFrom([]int{1, 1, 2, 3}).Draw(t, "certs")}
+		c.Target = rapid.IntRange(0, c.Certs-1).Draw(t, "target")
+		c.Live = rapid.Bool().Draw(t, "live")
+		c.Class = rapid.SampledFrom([]string{"junk", "junk", "junk", "discoverable", "own-cookie-ack", "session-unknown", "session-live", "session-live",
+			"wrong-kem", "altered", "altered", "altered", "delayed", "delayed", "replayed-late", "replayed-late", "future", "honest"}).Draw(t, "class")
+		c.Src = rapid.IntRange(0, 2).Draw(t, "src")
+		c.Seed = rapid.Uint64().Draw(t, "seed")
+		delay := func() int64 {
+			switch rapid.IntRange(0, 5).Draw(t, "delayZone") {
+			case 0:
+				return int64(rapid.IntRange(0, 5000).Draw(t, "delayInside"))
+			case 1:
+				return int64(rapid.IntRange(5001, 5999).Draw(t, "delayEdge"))
+			case 2:
+				return int64(rapid.IntRange(6000, 8000).Draw(t, "delayJustBeyond"))
+			default:
+				return int64(rapid.IntRange(6000, 3600000).Draw(t, "delayBeyond"))
+			}
+		}
+		switch c.Class {
+		case "junk":
+			c.N = rapid.IntRange(1, 8).Draw(t, "n")
+			c.Type = rapid.SampledFrom([]int{-1, -1, 0, 1, 2, 3, 4, 5, 8, 8, 8, 9, 0x10, 0x80, 0x18, 0xff}).Draw(t, "type")
+			c.Len = rapid.SampledFrom([]int{rapid.IntRange(1, 64).Draw(t, "lenSmall"), rapid.IntRange(1, 3000).Draw(t, "lenAny"), L + rapid.IntRange(-2, 2).Draw(t, "lenAroundRequest")}).Draw(t, "len")
+			if c.Type == int(MessageTypeClientRequestHidden) {
+				c.Kind = rapid.IntRange(0, 1).Draw(t, "shaped")
+			}
+		case "discoverable":
+			c.Type = rapid.IntRange(-1, 4).Draw(t, "msg")
+		case "session-unknown", "session-live":
+			c.N = rapid.IntRange(1, 8).Draw(t, "n")
+			c.Type = rapid.SampledFrom([]int{0x10, 0x10, 0x80, 0x80, 0x20, 0x00, 0x07, 0xf0}).Draw(t, "type")
+			c.Len = rapid.SampledFrom([]int{rapid.IntRange(1, 64).Draw(t, "lenSmall"), rapid.IntRange(48, 2000).Draw(t, "lenAny")}).Draw(t, "len")
+			if c.Class == "session-live" {
+				c.Live = true
+				c.Kind = rapid.SampledFrom([]int{0, 0, 1, 2}).Draw(t, "kind")
+				c.Off = rapid.IntRange(0, 600).Draw(t, "off")
+				c.Mask = rapid.IntRange(1, 255).Draw(t, "mask")
+			}
+		case "altered":
+			c.Kind = rapid.SampledFrom([]int{0, 0, 0, 1, 2}).Draw(t, "kind")
+			switch c.Kind {
+			case 0:
+				c.Off = rapid.IntRange(0, L-1).Draw(t, "off")
+				c.Mask = rapid.IntRange(1, 255).Draw(t, "mask")
+			case 1:
+				c.Len = rapid.IntRange(0, L-1).Draw(t, "len")
+			case 2:
+				c.Len = rapid.IntRange(1, 600).Draw(t, "ext")
+			}
+		case "delayed", "replayed-late":
+			c.DelayMs = delay()
+		case "future":
+			c.DelayMs = 1000 + delay()
+		}
+		return c
+	}
+}
+
+func TestVerifC19HiddenRandom(t *testing.T) {
+	L := c19SelfTest(t)
+	vlib.Drive(t, vlib.Spec[c19HiddenCase]{ID: "C19", Quick: 1200, Gen: c19HiddenGen(L), Run: c19HiddenRun(t)})
+}
+
+// ---------------------------------------------------------------------------
+// self-test of the harness: the fully honest presentations must be accepted / answered (machinery failure otherwise)
+
+var (
+	c19SelfOnce sync.Once
+	c19SelfErr  string
+	c19SelfLen  int
+)
+
+func c19SelfTest(t *testing.T) int {
+	c19SelfOnce.Do(func() {
+		for _, c := range []c19CookieCase{{}, {Forge: true}, {Real: true}, {DelayS: 60}} {
+			var out c19CookieOut
+			res := vlib.Bubble(t, 60*time.Second, func() { out = c19Cookie(c) })
+			if res.Panic != "" || res.Hung || out.mach != "" || !out.serverAuth || !out.entry {
+				c19SelfErr = fmt.Sprintf("C19:valid-cookie-rejected: honest acknowledgement %+v: panic %q hung %v machinery %q ServerAuth %v handshake entry %v", c, res.Panic, res.Hung, out.mach, out.serverAuth, out.entry)
+				return
+			}
+		}
+		for certs := 1; certs <= 2; certs++ {
+			var v vlib.Verdict
+			var mach string
+			c19LastReqLen.Store(0)
+			res := vlib.Bubble(t, 60*time.Second, func() { mach = c19Hidden(c19HiddenCase{Certs: certs, Class: "honest"}, &v, nil) })
+			if res.Panic != "" || res.Hung || mach != "" || !v.OK() || c19LastReqLen.Load() < c19MinHiddenLen {
+				c19SelfErr = fmt.Sprintf("honest hidden handshake against a %d-certificate server is not answered exactly once: panic %q hung %v machinery %q violations %v labels %v", certs, res.Panic, res.Hung, mach, v.Violations, v.Labels)
+				return
+			}
+			c19SelfLen = int(c19LastReqLen.Load())
+		}
+		if msgs := c19MakeRequest(t, 7000, c19HiddenClientConfig(0, false)); len(msgs) != c19SelfLen {
+			c19SelfErr = fmt.Sprintf("future-stamped request has %d bytes, honest request %d", len(msgs), c19SelfLen)
+		}
+	})
+	if c19SelfErr != "" {
+		t.Fatalf("VERIF-MACHINERY %s", c19SelfErr)
+	}
+	return c19SelfLen
+}
